@@ -1,4 +1,6 @@
 import SedVerif.Proofs.Plot
+import SedVerif.Proofs.Dist
+import SedVerif.Properties.C04
 import Mathlib.Analysis.SpecialFunctions.Log.Base
 /-!
 # C17 — plotted model SEDs are the fitted models
@@ -126,12 +128,12 @@ theorem C17_through_fixed (lg exp10 : K → K) (hadd : ∀ a b, exp10 (a + b) = 
     cs = (modeThetas mode P.theta).map
       (fun t => f.rows.map (fun r => (r.wav, throughVal3 lg exp10 P d f.av t r))) := by
   have hnot : ¬ P.aps.length ≤ 1 := by omega
-  have key : sedInterpolate P.aps (f.rows.map (scaledRow exp10 P f.sc f.av))
+  have key : Plt.sedInterpolate P.aps (f.rows.map (scaledRow exp10 P f.sc f.av))
       ((modeThetas mode P.theta).map (fun t => plotAperture exp10 t f.sc)) = .ok cs := by
     cases mode
     · exact absurd rfl hm
     all_goals exact h
-  unfold sedInterpolate at key
+  unfold Plt.sedInterpolate at key
   rw [if_neg hnot] at key
   split at key
   · cases key
@@ -223,10 +225,133 @@ theorem C17_through_single (lg exp10 : K → K) (hadd : ∀ a b, exp10 (a + b) =
     cases h
     simp [nCurves, hflat]
   all_goals
-    simp only [fitCurves, sedInterpolate, if_pos hap] at h
+    simp only [fitCurves, Plt.sedInterpolate, if_pos hap] at h
     cases h
     rw [hflat, List.map_map, ← modeThetas_length _ (by simp) P.theta]
     exact List.eq_replicate_iff.mpr ⟨by simp, by intro b hb; simp at hb; exact hb.2.symm⟩
+
+/-! ### The "predicted flux stored with the fit" is the fit model's own stored row
+
+`predStored2` / `predStored3` (Model/Plot.lean) are shown to be what the fit model stores:
+`predicted2` of Model/Fit.lean for the distance-independent mode, and `mf + av·k` with
+`mf = lg (fluxAt …)` (Model/Dist.lean: `modelLogFluxes`), the entry `C04_predicted` proves
+`predictedRow3` to hold, for the distance-dependent mode.  The pass-through statements are then restated
+against those. -/
+
+/-- **C17 (stored prediction, distance-independent).** Band `j` of the row `predicted2` stores for a
+    model with log flux `lg F` in that band is `predStored2`. -/
+theorem C17_stored2 (lg : K → K) (a s : K) (lobs : List (LogObs K)) (mfs ks : List K) (j : Nat)
+    (o : LogObs K) (cell : List K) (k : K)
+    (ho : lobs[j]? = some o) (hmf : mfs[j]? = some (lg (cell.headD 0))) (hk : ks[j]? = some k) :
+    (predicted2 a s (mkPts lobs mfs ks) mfs)[j]? = some (predStored2 lg cell s a k) := by
+  rw [C04_predicted.1 a s lobs mfs ks j o _ k ho hmf hk]
+  unfold predStored2
+  rw [two_eq]
+  congr 1
+  ring
+
+/-- **C17 (stored prediction, distance-dependent).** If the fit model's `fluxAt` (interpolate the
+    tabulated fluxes to `θ·d[pc]` AU, reset above the table, times `(1 kpc/d)²`) returns `v` for an
+    increasing aperture table, then `predStored3` is `lg v + av·k` — the entry `mf + av·k` that
+    `C04_predicted` shows `predictedRow3` to hold at the best distance. -/
+theorem C17_stored3 (lg : K → K) (aps cell : List K) (hlen : aps.length = cell.length)
+    (hap : 1 < aps.length) (hinc : Dist.Incr aps) (θ d av k v : K)
+    (h : fluxAt aps cell θ (thousandK * d) d = .ok v) :
+    predStored3 lg aps cell θ d av k = lg v + av * k := by
+  have hnot : ¬ aps.length ≤ 1 := by omega
+  have h1000 : (thousandK : K) * d = d * thousand := by
+    rw [thousand_eq]; unfold thousandK tenK; rw [two_eq]; ring
+  cases aps with
+  | nil => simp at hap
+  | cons a0 arest =>
+    cases cell with
+    | nil => simp at hlen
+    | cons c0 crest =>
+      have hmax : listMax (a0 :: arest) = (lastD (arest.zip crest) (a0, c0)).1 := by
+        rw [listMax_of_sorted a0 arest hinc]
+        exact (Dist.lastD_zip_fst arest crest (by simpa using hlen) a0 c0).symm
+      have hfl : fluxAt (a0 :: arest) (c0 :: crest) θ (thousandK * d) d
+          = (interpClampT ((a0, c0) :: arest.zip crest) (θ * (thousandK * d))).map
+              (fun f => f * (1 / d * (1 / d))) := rfl
+      rw [hfl] at h
+      by_cases hc : clampHi (lastD (arest.zip crest) (a0, c0)).1 (θ * (thousandK * d)) < (a0, c0).1
+      · have herr : interpClampT ((a0, c0) :: arest.zip crest) (θ * (thousandK * d)) = .error .tooSmall := by
+          simp [interpClampT, lastD, hc]
+        rw [herr] at h
+        cases h
+      · rw [Dist.interpClampT_eq _ _ _ hc] at h
+        have hv : interpIn ((a0, c0) :: arest.zip crest)
+            (clampHi (lastD (arest.zip crest) (a0, c0)).1 (θ * (thousandK * d))) * (1 / d * (1 / d)) = v := by
+          cases h; rfl
+        unfold predStored3 fitApFlux apInterp
+        rw [if_neg hnot, ← hv, hmax, ← h1000]
+        simp only [List.zip_cons_cons, clampAbove, clampHi]
+        ring
+
+/-- **C17 (pass-through against the fit model's stored value, distance-dependent).**  `through3_core`
+    with the stored prediction expressed by the fit model itself: if `fluxAt` gives `v > 0` at the grid
+    distance `d`, the curve for aperture `θ` passes, at that tabulated wavelength, through
+    `10**(lg v + av·k) · ν·c · (dOld/KPC)²`. -/
+theorem C17_through_stored3 (lg exp10 : K → K) (hadd : ∀ a b, exp10 (a + b) = exp10 a * exp10 b)
+    (hlg : ∀ x, 0 < x → exp10 (lg x) = x)
+    (P : PlotCtx K) (hkpc : P.kpc ≠ 0) (hap : 1 < P.aps.length) (hinc : Dist.Incr P.aps)
+    (d : K) (hd : 0 < d) (av θ : K) (r : SedRow K) (hlen : P.aps.length = r.flux.length)
+    (v : K) (hv : 0 < v) (h : fluxAt P.aps r.flux θ (thousandK * d) d = .ok v) :
+    apInterp P.aps (scaledRow exp10 P (lg d) av r).2
+        (clampAbove (listMax P.aps) (plotAperture exp10 θ (lg d)))
+      = exp10 (lg v + av * r.k) * (r.nu * P.c) * ((P.dOld / P.kpc) * (P.dOld / P.kpc)) := by
+  have hst := C17_stored3 lg P.aps r.flux hlen hap hinc θ d av r.k v h
+  -- positivity of the interpolated flux from `v = F · (1/d)² > 0`
+  have hF : 0 < fitApFlux P.aps r.flux (θ * (d * thousand)) := by
+    have hst0 := C17_stored3 (fun x => x) P.aps r.flux hlen hap hinc θ d 0 0 v h
+    unfold predStored3 at hst0
+    simp only [zero_add, mul_zero, add_zero] at hst0
+    have hdd : 0 < 1 / d * (1 / d) := by positivity
+    rw [← hst0] at hv
+    by_contra hneg
+    have hle : fitApFlux P.aps r.flux (θ * (d * thousand)) ≤ 0 := not_lt.mp hneg
+    have : fitApFlux P.aps r.flux (θ * (d * thousand)) * (1 / d * (1 / d)) ≤ 0 :=
+      mul_nonpos_of_nonpos_of_nonneg hle (le_of_lt hdd)
+    exact absurd hv (not_lt.mpr this)
+  rw [through3_core lg exp10 hadd hlg P hkpc hap d hd av θ r hF, hst]
+
+/-- **C17 (pass-through against the fit model's stored value, distance-independent).** The single
+    curve of a package without apertures passes, at a tabulated wavelength, through `10**stored · ν·c ·
+    (dOld/KPC)²` where `stored` is band `j` of the row `predicted2` stores for that model. -/
+theorem C17_through_stored2 (lg exp10 : K → K) (hadd : ∀ a b, exp10 (a + b) = exp10 a * exp10 b)
+    (hlg : ∀ x, 0 < x → exp10 (lg x) = x)
+    (P : PlotCtx K) (hkpc : P.kpc ≠ 0) (sc av : K) (r : SedRow K) (hF : 0 < r.flux.headD 0)
+    (lobs : List (LogObs K)) (mfs ks : List K) (j : Nat) (o : LogObs K) (stored : K)
+    (ho : lobs[j]? = some o) (hmf : mfs[j]? = some (lg (r.flux.headD 0))) (hk : ks[j]? = some r.k)
+    (hst : (predicted2 av sc (mkPts lobs mfs ks) mfs)[j]? = some stored) :
+    (scaledRow exp10 P sc av r).2.headD 0
+      = exp10 stored * (r.nu * P.c) * ((P.dOld / P.kpc) * (P.dOld / P.kpc)) := by
+  rw [C17_stored2 lg av sc lobs mfs ks j o r.flux r.k ho hmf hk] at hst
+  cases hst
+  exact through2_core lg exp10 hadd hlg P hkpc sc av r hF
+
+/-- **C17 (the plot's domain is the fit's domain).** The distance-dependent fit only exists when
+    `θ·dmin[pc]` is not below the smallest tabulated aperture for every filter (C02's domain:
+    `interpClamp` refuses smaller requests); every reported distance `10**sc` is a grid distance
+    `≥ dmin`; hence no aperture the plot requests is below the table — the `hdom` hypothesis of
+    `C17_returns`. -/
+theorem C17_domain_from_fit (exp10 : K → K) (P : PlotCtx K) (a0 : K) (rest : List K)
+    (haps : P.aps = a0 :: rest) (hinc : Dist.Incr P.aps) (dmin : K)
+    (hθ : ∀ t ∈ P.theta, 0 ≤ t)
+    (hC02 : ∀ t ∈ P.theta, a0 ≤ t * (thousandK * dmin))
+    (fits : List (PlotFit K)) (hgrid : ∀ f ∈ fits, dmin ≤ exp10 f.sc) :
+    ∀ f ∈ fits, ∀ t ∈ P.theta, listMin P.aps ≤ plotAperture exp10 t f.sc := by
+  intro f hf t ht
+  have hmin : listMin P.aps = a0 := by rw [haps]; exact listMin_of_sorted a0 rest (haps ▸ hinc)
+  have h1000 : (thousandK : K) = thousand := by
+    rw [thousand_eq]; unfold thousandK tenK; rw [two_eq]; norm_num
+  have hpos : (0 : K) ≤ thousand := by rw [thousand_eq]; norm_num
+  rw [hmin]
+  unfold plotAperture
+  calc a0 ≤ t * (thousandK * dmin) := hC02 t ht
+    _ = t * dmin * thousand := by rw [h1000]; ring
+    _ ≤ t * exp10 f.sc * thousand :=
+        mul_le_mul_of_nonneg_right (mul_le_mul_of_nonneg_left (hgrid f hf) (hθ t ht)) hpos
 
 /-! ### Non-vacuity -/
 
@@ -239,6 +364,49 @@ example : (∀ a b : ℝ, (10 : ℝ) ^ (a + b) = (10 : ℝ) ^ a * (10 : ℝ) ^ b
    fun x hx => Real.rpow_logb (by norm_num) (by norm_num) hx,
    fun x y hx hxy => Real.logb_lt_logb (by norm_num) hx hxy,
    fun x => Real.logb_rpow (by norm_num) (by norm_num)⟩
+
+/-- an instance over ℝ, with the genuine `Real.logb 10` / `10^x`, that meets ALL hypotheses of
+    `C17_through_fixed` jointly (two apertures, one filter of 0.5 arcsec, a fit at the grid distance
+    `d = 1` kpc, mode `largest`), so that the theorem's conclusion is obtained outright -/
+noncomputable def exRCtx : PlotCtx ℝ :=
+  { c := 1, dOld := 3, kpc := 3, aps := [100, 1000], fwav := [1], theta := [1 / 2] }
+
+noncomputable def exRFit : PlotFit ℝ :=
+  { sc := Real.logb 10 1, av := 0, rows := [{ wav := 1, nu := 3, k := 0, flux := [1, 2] }] }
+
+example : ∃ cs, fitCurves (Real.logb 10) (fun x => (10 : ℝ) ^ x) exRCtx .largest exRFit = .ok cs ∧
+    cs = (modeThetas .largest exRCtx.theta).map (fun t => exRFit.rows.map (fun r =>
+      (r.wav, throughVal3 (Real.logb 10) (fun x => (10 : ℝ) ^ x) exRCtx 1 exRFit.av t r))) := by
+  have hadd : ∀ a b : ℝ, (10 : ℝ) ^ (a + b) = (10 : ℝ) ^ a * (10 : ℝ) ^ b :=
+    fun a b => Real.rpow_add (by norm_num) a b
+  have hlg : ∀ x : ℝ, 0 < x → (10 : ℝ) ^ (Real.logb 10 x) = x :=
+    fun x hx => Real.rpow_logb (by norm_num) (by norm_num) hx
+  have hmax : listMax ([100, 1000] : List ℝ) = 1000 := by
+    simp only [listMax, List.foldl_cons, List.foldl_nil]; norm_num
+  have hmin : listMin ([100, 1000] : List ℝ) = 100 := by
+    simp only [listMin, List.foldl_cons, List.foldl_nil]; norm_num
+  have hth : modeThetas .largest exRCtx.theta = [1 / 2] := by
+    simp [modeThetas, exRCtx, listMax]
+  have hdom : 1 < exRCtx.aps.length → ∀ t ∈ exRCtx.theta,
+      listMin exRCtx.aps ≤ plotAperture (fun x => (10 : ℝ) ^ x) t exRFit.sc := by
+    intro _ t ht
+    simp only [exRCtx, List.mem_singleton] at ht
+    subst ht
+    simp only [exRCtx, exRFit, hmin, plotAperture, Real.logb_one, Real.rpow_zero, thousand_eq]
+    norm_num
+  obtain ⟨cs, hcs⟩ := fitCurves_ok (Real.logb 10) (fun x => (10 : ℝ) ^ x) exRCtx .largest exRFit
+    (by simp [exRCtx]) hdom
+  refine ⟨cs, hcs, C17_through_fixed _ _ hadd hlg exRCtx (by norm_num [exRCtx]) (by simp [exRCtx])
+    .largest (by simp) exRFit 1 one_pos rfl ?_ cs hcs⟩
+  intro t ht r hr
+  rw [hth, List.mem_singleton] at ht
+  subst ht
+  simp only [exRFit, List.mem_singleton] at hr
+  subst hr
+  have hnot : ¬ ([100, 1000] : List ℝ).length ≤ 1 := by simp
+  simp only [exRCtx, fitApFlux, if_neg hnot, apInterp, hmax, clampAbove, thousand_eq, List.zip_cons_cons,
+    List.zip_nil_right, interpIn, lin]
+  norm_num
 
 /-- a concrete two-filter, three-aperture package with two selected fits -/
 def exPlotCtx : PlotCtx Rat :=
